@@ -27,6 +27,8 @@ MC_DECODER = dict(module="MC_Decoder", cfg="MC_Decoder.cfg", cfg_thorough="MC_De
 
 MC_ENCODER = dict(module="MC_Encoder", cfg="MC_Encoder.cfg", cfg_thorough="MC_Encoder_thorough.cfg", workers=6)
 
+MC_BYTESCURSOR = dict(module="MC_BytesCursor", cfg="MC_BytesCursor.cfg", workers=2)
+
 PROPS = {
     "C20": dict(level="model_checking", mc=[MC_FORMAT], steps=[dict(kind="custom", fn="feature_builds")],
         rule="one deterministic corpus (the C01 values and the C03 byte strings of every type available in the configuration, fixed seed) through one build "
@@ -65,7 +67,7 @@ PROPS = {
     "C01": dict(level="model_checking", mc=[MC_FORMAT], steps=[trace()]),
     "C02": dict(level="model_checking", mc=[MC_FORMAT], steps=[trace(1, 4)]),
     "C03": dict(level="model_checking", mc=[MC_DECODER], steps=[trace(2, 16)]),
-    "C08": dict(level="model_checking", mc=[MC_DECODER], steps=[trace(1, 2)]),
+    "C08": dict(level="model_checking", mc=[MC_DECODER, MC_BYTESCURSOR], steps=[trace(1, 2)]),
     "C11": dict(level="model_checking", mc=[MC_DECODER], steps=[trace(1, 6), dict(kind="apalache", module="Ind_Depth")]),
     "C12": dict(level="model_checking", mc=[MC_DECODER], steps=[trace(1, 4), dict(kind="apalache", module="Ind_Mem")]),
     "C13": dict(level="model_checking", mc=[MC_FORMAT], steps=[trace(1, 10)]),
